@@ -676,7 +676,11 @@ impl Connection {
             let len = {
                 trace!("Attempting to read message length (4 bytes, distribution protocol)...");
                 let mut len_bytes = [0u8; 4];
-                tokio::time::timeout(timeout, read_half.read_exact(&mut len_bytes))
+                // Waiting for the next frame to begin is not an error, however long it takes: a
+                // healthy peer is silent between ticks (every 15 s by default). Only a frame that
+                // has started has to arrive within `timeout`.
+                read_half.read_exact(&mut len_bytes[..1]).await?;
+                tokio::time::timeout(timeout, read_half.read_exact(&mut len_bytes[1..]))
                     .await
                     .map_err(|_| Error::Timeout(timeout))??;
                 let len = u32::from_be_bytes(len_bytes);
